@@ -245,6 +245,14 @@ impl<F: Read + Seek> Seek for Stream<F> {
 
 impl<F: Read + Write + Seek> Write for Stream<F> {
     fn write(&mut self, buf: &[u8]) -> io::Result<usize> {
+        if self.current_position().checked_add(buf.len() as u64).is_none() {
+            // Possible when a damaged file claims a stream length near 2^64.
+            invalid_input!(
+                "Cannot write {} bytes at position {}",
+                buf.len(),
+                self.current_position()
+            );
+        }
         let num_bytes_written = match self.buffer.write_bytes(buf) {
             Some(count) => count,
             None => {
